@@ -98,11 +98,22 @@ def run_property(prop, tier, seed, only=None):
     bm = _import(f"bounded.{prop}")
     if bm is not None and only in (None, "bounded"):
         suite = bm.run(tier, seed)
+        dump = os.environ.get("VERIF_DUMP_FAILS")
+        if dump:
+            core.jdump({"property": prop, "tier": tier, "seed": seed,
+                        "bounded": [{"item": it.name, "input": f["input"], "symptom": f["symptom"][:300]}
+                                    for it in suite.items.values() for f in it.failures],
+                        "obligations": [o.name for o in ded.obligations if o.status == "refuted"]}, dump)
         for it in suite.items.values():
+            unmatched = 0
             for n, f in enumerate(it.failures):
                 k = core.match_known(known, item=it.name, inp=f["input"])
                 if k is not None:
                     known_hits.append((k, f"{it.name} {core._norm(f['input'])}"))
+                    continue
+                unmatched += 1
+                if unmatched > 10:  # at most 10 replay files / VIOLATION lines per item; every failure is counted
+                    violations.append((None, ""))
                     continue
                 path = os.path.join(core.REPLAYS, f"{prop}-{_safe(it.name)}-{n}.json")
                 core.jdump(
@@ -191,7 +202,7 @@ def run_property(prop, tier, seed, only=None):
         f"violations={len(violations)}; {wall:.1f}s"
     )
     if violations:
-        for path, suffix in violations[:20]:
+        for path, suffix in [v for v in violations if v[0] is not None][:40]:
             print(f"VIOLATION property={prop} replay={path}{suffix}")
         return 1
     return 0
